@@ -393,7 +393,7 @@ Lemma hdr_clause_handed al q pl tracing b k :
   hdr_clause q pl tracing k (tv b k (handed_over true true al q pl k)) = true.
 Proof.
   intro H7. destruct (chain_all al q H7) as (Hact & Hx & Hf).
-  unfold hdr_clause, handed_over. unfold pipeline_values.
+  unfold hdr_clause, hdr_clause_h, handed_over. unfold pipeline_values.
   set (hin := in_headers q) in *. set (pvs := line_values k (p_headers pl)).
   destruct (is_nil pvs) eqn:Epv; cbn [negb].
   - (* the pipeline did not produce k *)
@@ -513,7 +513,7 @@ Proof.
     (* the path on the wire *)
     assert (Hstar : r_setting r = On -> u_path u <> "*" /\ renorm_sensitive (u_rawpath u) = false /\
                                       renorm_sensitive (cfg_add r) = false).
-    { intro Hon. unfold guard_F3 in G3. rewrite Hv, Hon in G3.
+    { intro Hon. unfold guard_F3, guard_F3_v in G3. rewrite Hv, Hon in G3.
       apply orb_false_iff in G3 as [G3 G3c]. apply orb_false_iff in G3 as [G3a G3b].
       splits; auto. apply String.eqb_neq. exact G3c. }
     assert (Hpath : wire_path t = expected_path r u).
@@ -544,7 +544,7 @@ Proof.
     assert (Hq : query_clause (cfg_strip_query r) (u_query u) q' = true).
     { unfold q', cfg_strip_query. destruct (b_rw (r_backend r)) as [rw|] eqn:Erw.
       - apply query_clause_holds; [exact F1|]. cbn [fx_q qf6]. destruct G6 as [G6|G6]; [left; exact G6|right].
-        unfold guard_F6 in G6. rewrite Hv in G6. unfold cfg_strip_query in G6. rewrite Erw in G6. exact G6.
+        unfold guard_F6, guard_F6_v in G6. rewrite Hv in G6. unfold cfg_strip_query in G6. rewrite Erw in G6. exact G6.
       - unfold query_clause. simpl. apply String.eqb_refl. }
     assert (Husable : scheme_usable r u = true).
     { unfold scheme_usable. rewrite <- Hsc. rewrite <- Hup, Htls.
@@ -556,7 +556,9 @@ Proof.
     rewrite Hmeth, String.eqb_refl, Hb, String.eqb_refl. cbn [andb].
     rewrite (serve_host _ _ _ _ _ _ _ _ _ _ Hs), String.eqb_refl. cbn [andb].
     (* headers *)
-    unfold headers_ok. apply forallb_forall. intros k _.
+    unfold headers_ok. cbv zeta. apply forallb_forall. intros k _.
+    change (hdr_clause_h (in_headers q) (q_peer q) pl (r_tracing r) k (h_values k hs))
+      with (hdr_clause q pl (r_tracing r) k (h_values k hs)).
     destruct (String.eqb k "Host") eqn:Ek; [reflexivity|]. simpl.
     rewrite (serve_headers _ _ _ _ _ _ _ _ _ _ k Hs) by (apply String.eqb_neq; exact Ek).
     rewrite F13, F4. apply hdr_clause_expected.
